@@ -1,6 +1,6 @@
 """C15 — the generated OpenAPI document is valid and describes exactly the application.
 
-impl  : harness C15 — applications assembled at run time from a catalogue of 13 typed handlers (fn items: 0-2 path params, Query / JSON / URLEncoded / Multipart
+impl  : harness C15 — applications assembled at run time from a catalogue of 26 typed handlers (fn items of every IntoHandler shape: no / one / 1-tuple / 2-tuple path params x 0-4 extractors, Query / JSON / URLEncoded / Multipart
         extractors over derived schemas, typed status / JSON / text / Result / Response returns) under plain / JWT / BasicAuth / openapi::Tag fangs at any level,
         nested mounts with param prefixes; the real `__openapi_document_bytes__`; and, for every documented operation, a request built from it (params, query, body of
         the documented media type, documented credentials) through the real router: which handler ran
@@ -15,10 +15,10 @@ from . import appgen
 
 ID = 'C15'
 GEN_DEPS = []
-RULE = ('application trees: 1-6 routes per application (static / param segments, root route), 1-5 methods per route each with any of the 13 catalogue handlers that fits the '
-        'number of captured params, 0-3 fangs per application and 0-2 per route drawn from plain / jwt / basic / tag, mounts up to depth 2 with static and param prefixes; '
+RULE = ('application trees: 1-6 routes per application (static / param segments, root route), 1-5 methods per route each with any of the 26 catalogue handlers (every IntoHandler shape) that fits the '
+        'number of captured params, 0-3 fangs per application and 0-2 per route drawn from plain / jwt / basic / tag, mounts up to depth 2 with static and param prefixes, in 30 % of mounts one route of the mounted application is registered by the parent too under other methods; '
         'non-trivial = a mount with a param prefix, or an authentication fang, or a handler with extractors')
-ASSUMPTIONS = ['param names are distinct along one path and non-empty; route literals hold no "{" "}" (hypothesis `clean` of template_inj)',
+ASSUMPTIONS = ['param names are distinct along one path and non-empty, and one param position of one route pattern carries one name (OpenAPI treats /u/{id} and /u/{uid} as the same path); route literals hold no "{" "}" (hypothesis `clean` of template_inj)',
                'JWT and BasicAuth around one handler both read the Authorization header, so no request can satisfy both: such operations are documented and compared, but not probed']
 SIGS = {0: dict(path=[], query=[], body=None, responses=[200]),
         1: dict(path=['integer'], query=[], body=None, responses=[200]),
@@ -33,6 +33,22 @@ SIGS = {0: dict(path=[], query=[], body=None, responses=[200]),
         10: dict(path=[], query=[], body='application/json', responses=[]),
         11: dict(path=['integer'], query=[], body=None, responses=[200, 404]),
         12: dict(path=[], query=[['age', 'integer', True], ['limit', 'integer', False], ['name', 'string', True], ['nick', 'string', False], ['zone', 'string', True]], body=None, responses=[200])}
+_QA, _QB, _QD, _QE = [['page', 'integer', False], ['q', 'string', True]], [['tag', 'string', True]], [['d', 'string', True]], [['e', 'integer', True], ['f', 'string', False]]
+_J, _U, _M = 'application/json', 'application/x-www-form-urlencoded', 'multipart/form-data'
+# every remaining IntoHandler shape: (no param | P | (P1,) | (P1, P2)) x 1-4 extractors
+SIGS.update({13: dict(path=[], query=_QA, body=_J, responses=[200]),
+             14: dict(path=[], query=_QB + _QD, body=_U, responses=[204]),
+             15: dict(path=[], query=_QB + _QD + _QE, body=_J, responses=[200]),
+             16: dict(path=['integer'], query=_QD + _QE, body=_J, responses=[201]),
+             17: dict(path=['string'], query=_QB + _QD + _QE, body=_M, responses=[200]),
+             18: dict(path=['integer'], query=_QD, body=None, responses=[200]),
+             19: dict(path=['string'], query=_QE, body=_J, responses=[200, 404, 500]),
+             20: dict(path=['integer'], query=_QD + _QE, body=_J, responses=[200]),
+             21: dict(path=['string'], query=_QB + _QD + _QE, body=_U, responses=[204]),
+             22: dict(path=['integer', 'string'], query=[], body=_J, responses=[201]),
+             23: dict(path=['string', 'string'], query=_QD, body=_J, responses=[200]),
+             24: dict(path=['integer', 'integer'], query=_QD + _QE, body=_J, responses=[200]),
+             25: dict(path=['string', 'integer'], query=_QB + _QD + _QE, body=_J, responses=[200, 404, 500])})
 SIGS_J = {str(k): v for k, v in SIGS.items()}
 KINDS = ['plain', 'jwt', 'basic', 'tag']
 PNAMES = ['id', 'p', 'name', 'v', 'k', 'x2', 'user_id', 'n']
@@ -80,8 +96,42 @@ def gen_app(rng, depth=0, used=(), prefix_params=0):
         fits = [k for k, s in SIGS.items() if len(s['path']) <= total]
         ms = rng.sample(appgen.METHODS, rng.choice([1, 1, 2, 3, 5]))
         app['items'].append({'route': r, 'methods': {m: rng.choice(fits) for m in ms}, 'local': gen_fangs(rng, 2, auth_rate=0.3) if rng.random() < 0.3 else []})
+    # a route of a mounted application that the parent registers too, under other methods (the route table then merges two method maps);
+    # the child then has no application-level fangs: its fangs would sit on the shared node (the side condition of C04 excludes such trees)
+    for it in [it for it in app['items'] if 'mount' in it]:
+        routes = [r for r in it['app']['items'] if 'route' in r]
+        if not routes or rng.random() >= 0.3: continue
+        r = rng.choice(routes)
+        free_m = [m for m in appgen.METHODS if m not in r['methods']]
+        if not free_m: continue
+        full = it['mount'].rstrip('/') + ('' if r['route'] == '/' else r['route'])
+        key = tuple('*' if x is None else x for x in appgen.pat(full))
+        if key in seen: continue
+        seen.add(key)
+        it['app']['fangs'] = []
+        total = prefix_params + len(re.findall(r':([A-Za-z0-9_]+)', full))
+        fits = [k for k, sg in SIGS.items() if len(sg['path']) <= total]
+        app['items'].append({'route': full, 'methods': {m: rng.choice(fits) for m in rng.sample(free_m, rng.choice([1, 1, 2][:len(free_m)] if len(free_m) < 2 else [1, 1, 2]))},
+                             'local': gen_fangs(rng, 2, auth_rate=0.3) if rng.random() < 0.3 else []})
     rng.shuffle(app['items'])
+    if depth == 0: dedupe(app)
     return app
+
+
+def dedupe(app, prefix=(), seen=None):
+    """route/method pairs stay distinct over the whole tree (a second handler for one pair is refused at start-up)"""
+    seen = set() if seen is None else seen
+    keep = []
+    for it in app['items']:
+        if 'mount' in it:
+            dedupe(it['app'], prefix + tuple(appgen.pat(it['mount'])), seen)
+            keep.append(it)
+        else:
+            key = tuple('*' if x is None else x for x in list(prefix) + appgen.pat(it['route']))
+            it['methods'] = {m: k for m, k in it['methods'].items() if (key, m) not in seen}
+            seen.update((key, m) for m in it['methods'])
+            if it['methods']: keep.append(it)
+    app['items'] = keep
 
 
 def has_route(app): return any('route' in it or has_route(it['app']) for it in app['items'])
@@ -97,6 +147,10 @@ def corpus():
             C({'fangs': [], 'items': [{'mount': '/:tenant', 'app': {'fangs': [P, J, T], 'items': [R('/', {'GET': 1}), R('/:id', {'GET': 2, 'POST': 5}),
                                                                                                  {'mount': '/deep/:v', 'app': {'fangs': [T], 'items': [R('/', {'GET': 2, 'DELETE': 0}, [B])]}}]}}]}),
             C({'fangs': [J, B], 'items': [R('/both', {'GET': 0})]}),
+            C({'fangs': [T], 'items': [R('/tweets', {'GET': 3}), R('/tweets/:id', {'GET': 1, 'DELETE': 11}, [J]),
+                                        {'mount': '/tweets', 'app': {'fangs': [], 'items': [R('/', {'POST': 4}), R('/:id', {'PATCH': 5, 'PUT': 16}, [B])]}}, R('/late/:a/:b', {'GET': 2}),
+                                        {'mount': '/late/:a', 'app': {'fangs': [], 'items': [R('/:b', {'POST': 22, 'PUT': 23, 'PATCH': 24, 'DELETE': 25})]}}]}),
+            C({'fangs': [], 'items': [R('/s', {'GET': 13, 'POST': 14, 'PUT': 15}), R('/s/:id', {'GET': 18, 'POST': 19, 'PUT': 20, 'PATCH': 21, 'DELETE': 17}), R('/t/:id', {'PUT': 16})]}),
             C({'fangs': [], 'items': [R('/a', {'GET': 0}), R('/a/:id', {'GET': 1}), R('/a/:id/b', {'POST': 4}), R('/ab', {'GET': 3}), R('/a/b', {'GET': 9}), R('/q', {'GET': 12})]})]
 
 
